@@ -53,6 +53,10 @@ func New(kind string, variant int, nops int) Thread {
 		return newAsm(variant, nops)
 	case "asmd":
 		return newAsmDerived(variant, nops)
+	case "asmc":
+		return newAsmSibling(variant, nops)
+	case "asmw":
+		return newAsmWindow(variant, nops)
 	case "rom":
 		return newROM(variant, nops)
 	case "fn":
@@ -465,6 +469,8 @@ func (t *asmT) State() string {
 var (
 	derivedMu  sync.Mutex // harness bookkeeping only (pairs up the two constructors)
 	derivedSrc *asm.Emitter
+	siblingSrc *asm.Emitter
+	windowArr  []byte
 )
 
 func buildDerivedSource() *asm.Emitter {
@@ -486,9 +492,10 @@ func buildDerivedSource() *asm.Emitter {
 }
 
 type asmdT struct {
-	e *asm.Emitter
-	v int
-	n int
+	e    *asm.Emitter
+	v    int
+	n    int
+	kind string
 }
 
 func newAsmDerived(v, n int) *asmdT {
@@ -508,7 +515,12 @@ func newAsmDerived(v, n int) *asmdT {
 	}
 	return t
 }
-func (t *asmdT) Kind() string { return "asmd" }
+func (t *asmdT) Kind() string {
+	if t.kind != "" {
+		return t.kind
+	}
+	return "asmd"
+}
 func (t *asmdT) NumOps() int  { return t.n }
 func (t *asmdT) Do(i int) string {
 	return safely(func() string {
@@ -546,6 +558,69 @@ func (t *asmdT) State() string {
 	l2, ok2 := t.e.GetLabel("far5")
 	return digest(t.e.Bytes(), t.e.PC(), t.e.Flags(), l1, ok1, l2, ok2)
 }
+
+// ---- two sibling clones of one source emitter (both alive at once, each owned by its goroutine)
+
+func newAsmSibling(v, n int) *asmdT {
+	derivedMu.Lock()
+	if v%2 == 0 || siblingSrc == nil {
+		siblingSrc = buildDerivedSource()
+	}
+	src := siblingSrc
+	derivedMu.Unlock()
+	return &asmdT{v: v, n: n, kind: "asmc", e: src.Clone(make([]byte, 0x200))}
+}
+
+// ---- two emitters whose targets are adjacent windows of one array (an image patched in two places):
+// each program is one instruction too long for its 16-byte window, the last call has to be refused
+
+type asmwT struct {
+	e   *asm.Emitter
+	win []byte
+	v   int
+	n   int
+}
+
+func newAsmWindow(v, n int) *asmwT {
+	derivedMu.Lock()
+	if v%2 == 0 || windowArr == nil {
+		windowArr = make([]byte, 0x200)
+	}
+	arr := windowArr
+	derivedMu.Unlock()
+	lo := 0x100 + 0x10*(v%2)
+	t := &asmwT{v: v, n: n, win: arr[lo : lo+0x10]}
+	t.e = asm.NewEmitter(t.win, true)
+	t.e.SetBase(0x008000 + uint32(lo))
+	return t
+}
+func (t *asmwT) Kind() string { return "asmw" }
+func (t *asmwT) NumOps() int  { return t.n }
+func (t *asmwT) Do(i int) string {
+	return safely(func() string {
+		e := t.e
+		switch i % 3 {
+		case 0:
+			for k := 0; k < 15; k++ {
+				if t.v%2 == 0 {
+					e.NOP()
+				} else {
+					e.DEX()
+				}
+			}
+			return digest(e.Len(), e.PC())
+		case 1:
+			refused := safely(func() string { e.JSL(0x7E1234 + uint32(t.v)); return "accepted" })
+			return digest(refused, e.Len(), e.PC(), e.Bytes())
+		default:
+			err := e.Finalize()
+			var a bytes.Buffer
+			_ = e.WriteTextTo(&a)
+			return digest(err, e.Bytes(), a.String(), t.win)
+		}
+	})
+}
+func (t *asmwT) State() string { return digest(t.e.Bytes(), t.win, t.e.PC(), t.e.Len()) }
 
 // ---- snes.ROM
 
